@@ -103,6 +103,9 @@ def run(tier, seed):
                                               "--flushers", str([12, 16][i % 2]), "--fails", "0", "--cache", "0",
                                               "--cpus", str([16, 8][i % 2])]))
 
+    for i in range(2 if tier == "quick" else 8):   # the medium is damaged under the open store: calls fail, but return
+        jobs.append(("damage%d" % i, "damage", ["--seed", str(rng.randrange(1 << 30)), "--rounds", "5", "--watchdog", "25"]))
+
     def one(job):
         tag, sub, args = job
         d = os.path.join(shm, tag)
